@@ -1,10 +1,13 @@
 """C01 — the memory map tells the truth about the hardware, end to end"""
 import collections
-from .. import lib, e2e
+from .. import lib, e2e, runner
 
 PROP = "C01"
-THEOREMS = ["E2E.csr_route_eq_locate", "E2E.csr_items_ok", "E2E.route_eq_locate", "E2E.root_map_ok", "E2E.route_agrees_with_decode", "E2E.unassigned_reaches_nothing", "CsrT.tree_meets_spec", "Bridge.wb_read_through_tree", "Bridge.wb_write_is_atomic", "E2ED.root_read_through_bridge", "E2ED.root_write_through_bridge", "E2ED.root_unassigned_bridge_silent", "E2ED.root_sram_read", "E2ED.root_sram_write", "E2ED.root_unassigned_sram_untouched", "E2ED.route_via_selected", "E2ED.concat_slice"]
-IMPORTS = ["SocVerif.Props.C01", "SocVerif.Props.C10E", "SocVerif.Props.C01D"]
+THEOREMS = ["E2E.csr_route_eq_locate", "E2E.csr_items_ok", "E2E.route_eq_locate", "E2E.root_map_ok", "E2E.route_agrees_with_decode", "E2E.unassigned_reaches_nothing", "CsrT.tree_meets_spec", "Bridge.wb_read_through_tree", "Bridge.wb_write_is_atomic", "E2ED.root_read_through_bridge", "E2ED.root_write_through_bridge", "E2ED.root_unassigned_bridge_silent", "E2ED.root_sram_read", "E2ED.root_sram_write", "E2ED.root_unassigned_sram_untouched", "E2ED.route_via_selected", "E2ED.concat_slice",
+            "E2ES.bridge_at", "E2ES.sram_at", "E2ES.respond_only_when_selected", "E2ES.others_quiet", "E2ES.held_while_unacknowledged",
+            "E2ES.ack_only_from_selected", "E2ES.closed_unassigned_silent", "E2ES.closed_root_sram_read", "E2ES.closed_root_sram_write",
+            "E2ES.closed_root_read_through_bridge", "E2ES.closed_root_write_through_bridge"]
+IMPORTS = ["SocVerif.Props.C01", "SocVerif.Props.C10E", "SocVerif.Props.C01D", "SocVerif.Props.C01S"]
 
 
 def _one(seed, idx):
@@ -54,6 +57,13 @@ def run(rep, tier):
                        "strobe and read zero", "count": tot["acked_unassigned_in_bridge_window"],
                        "match": {"finding": "ack-of-unassigned-address-inside-bridge-window"}}, True,
                       "C01: unassigned address inside a bridge window is acknowledged")
+    # ---- the closed root of Props/C01S.lean (decoder + bridges + SRAMs), cycle by cycle against the real hierarchy
+    dyn = runner.correspondence(rep, prop=PROP, mod_name="harness.e2edyn", driver_kind="root",
+                                ncases=rep.scale(48) if tier == "quick" else 3000,
+                                nontrivial=lambda r: r["stats"]["acks"] >= 5 and r["stats"]["csr_strobes"] + r["stats"]["srams"] >= 1,
+                                sample_fmt=lambda r: {"hierarchy": r["descr"], "first_cycles": r["lines"][:8], "observed": r["obs"][:6]})
+    rep.coverage["closed_root_cosimulation"] = {k: dyn[k] for k in ("evaluations", "distinct_nontrivial", "correspondence_diffs",
+                                                                       "oracle_failures", "distribution") if k in dyn}
     rep.coverage.update({
         "evaluations": tot["addresses"], "distinct_nontrivial": tot["reg_txns"] + tot["sram_probes"],
         "hierarchies": n, "distribution": dict(tot), "traces_validated_against_impl": n - diffs, "correspondence_diffs": diffs,
@@ -65,5 +75,8 @@ def run(rep, tier):
                  "write transaction (strobes on exactly that register, chunk data at exactly the reported offsets), each SRAM granule a "
                  "write+read (only that word/lane changes), each unassigned address a write+read (no strobe, no memory change, no ack "
                  "outside bridge windows, zero data); oracle = the root memory map itself (decode_address / all_resources). "
-                 "evaluations = root addresses exercised; non-trivial = register transactions + SRAM granule probes"),
+                 "evaluations = root addresses exercised; non-trivial = register transactions + SRAM granule probes. "
+                 "closed_root_cosimulation: the closed system of Props/C01S.lean (driver `root`: decoder model over bridge and SRAM "
+                 "models) stepped on the same root request stream as the real hierarchy — root ack and read data, every bridge's CSR "
+                 "address/strobes/write data each cycle, final SRAM contents"),
     })
